@@ -10,7 +10,7 @@
    [rvl k V] is the revision held for key k.  Views are compared by revision: the code swallows an event whose
    revision equals the cached one, so contents agree exactly when a revision identifies the content of a key. *)
 From Coq Require Import List NArith Arith Bool.
-From Verif.C26 Require Import Model Spec Proofs Steps Syncer Shape Main Content.
+From Verif.C26 Require Import Model Spec Proofs Steps Syncer Shape Main Content Tidy Oracle.
 Import ListNotations.
 
 (* Convergence: after ANY sequence of list results, list errors, watch-creation outcomes, watch events, watch errors,
@@ -122,16 +122,36 @@ Theorem c26_content_hypothesis_needed :
 Proof. exact oracle_needs_content. Qed.
 Print Assumptions c26_content_hypothesis_needed.
 
-(* PARTIAL model-meets-spec.  For every scripted run of the syncer model (hence after every prefix of it) the
-   semantic clauses of the oracle [ok_obs] hold of the model's own callbacks: no update while WaitForDatastore and the
-   scan ends in the model's status; InSync only if every resource type has completed a list since its connection was
-   lost; per resource type the delivered updates yield the specification's view (contents under [inputs_ok],
-   revisions always).  NOT proved: that the boolean [ok_obs (refill steps os)] itself returns true, which additionally
-   needs the "tidy" clauses (UNew only for absent keys / UMod, UDel only for present ones, which needs a NoDup
-   invariant on resources/oldResources and [ord] a permutation; status callbacks are real transitions; SyncFailed
-   and ParseFailed provenance) and the reflection of veqb / vanished_ok.  [oracle_accepts_example] in Content.v is a
-   computed instance. *)
-Theorem c26_model_meets_spec_partial : forall content ord gs steps s' os,
+(* MODEL MEETS SPEC.  The boolean oracle [ok_obs] of Spec.v - the one evaluated on the REAL syncer's callbacks by the
+   correspondence run - returns true on the model's own callbacks for EVERY scripted run of the syncer model and every
+   prefix of it ([refill steps os] is the script with the model's callbacks filled in), for every map iteration order
+   that is a permutation, provided a revision determines content ([step_input_ok]: every KV an input converts to
+   carries [content k r]; necessary by c26_content_hypothesis_needed).  This covers all clauses of the oracle: views
+   converge in content after every step, vanished keys deleted in the List step, no update while WaitForDatastore, InSync
+   only when every type has listed, updates of the right kind (new only for absent keys, modify/delete only for present
+   ones: NoDup invariant on resources/oldResources), status callbacks are real transitions, SyncFailed only on a lost
+   connection, ParseFailed only for an input whose conversion failed. *)
+Theorem c26_model_meets_spec : forall content ord, ord_perm ord -> forall gs, gs <> [] -> forall steps s' os,
+  syncer_run ord gs (fst (syncer_init gs)) steps = Some (s', os) -> Forall (step_input_ok content gs) steps ->
+  forall n, ok_obs gs (snd (syncer_init gs)) (firstn n (refill steps os)) = true.
+Proof. exact model_meets_spec. Qed.
+Print Assumptions c26_model_meets_spec.
+
+Example c26_model_meets_spec_nonvacuous :
+  let gs := [mkCfgC true None] in
+  let steps := [St 0 false (RListOk [mkItem 1 11 11; mkItem 2 12 12] 12) []; St 0 false RWatchOk [];
+                St 0 false (REvent (EvMod (mkItem 1 13 13))) []; St 0 true (REvent EvErrExpired) [];
+                St 0 false (RListOk [mkItem 1 13 13] 14) []] in
+  Forall (step_input_ok (fun k r => r) gs) steps /\
+  exists s' os, syncer_run id_ord gs (fst (syncer_init gs)) steps = Some (s', os) /\ ord_perm id_ord.
+Proof.
+  split.
+  - repeat constructor; intros g Hg; cbn in Hg; inversion Hg; subst; unfold input_ok; cbn; repeat constructor.
+  - eexists. eexists. split; [vm_compute; reflexivity|intros m; apply Permutation.Permutation_refl].
+Qed.
+
+(* The same semantic clauses stated directly (revisions need no hypothesis on contents). *)
+Theorem c26_model_run_semantics : forall content ord gs steps s' os,
   ord_ok ord -> gs <> [] -> syncer_run ord gs (fst (syncer_init gs)) steps = Some (s', os) ->
   oscan Wait (concat os) = Some (wstatus s') /\
   (wstatus s' = InSync -> forall i g, nth_error gs i = Some g -> slisted (spec_run g sstate0 (ins_of i steps)) = true) /\
@@ -140,7 +160,7 @@ Theorem c26_model_meets_spec_partial : forall content ord gs steps s' os,
   (forall i g, nth_error gs i = Some g ->
      forall k, rvl k (cfold [] (oups i (concat os))) = rvl k (sv (spec_run g sstate0 (ins_of i steps)))).
 Proof. exact model_meets_spec_semantic. Qed.
-Print Assumptions c26_model_meets_spec_partial.
+Print Assumptions c26_model_run_semantics.
 
 (* The scripted runs [syncer_run] that the correspondence run compares with the real watcherSyncer are such
    interleavings (one cache step at a time, a flush after each), so all of the above applies to them. *)
